@@ -109,9 +109,9 @@ theorem denoteType_congr {rx E E' fs fs'} (hE : EnvOK E fs) (hE' : EnvOK E' fs')
 
 /-! ## the Api entry under a key -/
 
-theorem denoteNs_of_ns? {rx fs api ns o} (h : denote rx fs = some api) (ho : api.ns? ns = some o) :
+theorem denoteNs_of_ns? {rx fs api ns o} (h : denoteCore rx fs = some api) (ho : api.ns? ns = some o) :
     denoteNs rx fs ns = some o := by
-  unfold denote at h
+  unfold denoteCore at h
   cases hm : optMapM (denoteNs rx fs) (nsNames fs []) with
   | none => simp [hm] at h
   | some outs =>
@@ -142,7 +142,7 @@ theorem denoteNs_types {rx fs ns o} (h : denoteNs rx fs ns = some o) :
 
 /-- the type the Api holds under (ns, n) is the image of a declaration of that name in that namespace, and of
 every such declaration (there is only one in an accepted input) -/
-theorem type?_iff {rx E fs api} (hE : EnvOK E fs) (h : denote rx fs = some api) (ns n : String) (c : CType) :
+theorem type?_iff {rx E fs api} (hE : EnvOK E fs) (h : denoteCore rx fs = some api) (ns n : String) (c : CType) :
     api.type? (ns, n) = some c ↔ ∃ d, Decl.type d ∈ declsOf fs ns ∧ d.name = n ∧ denoteType rx fs ns d = some c := by
   have fwd : ∀ c, api.type? (ns, n) = some c →
       ∃ d, Decl.type d ∈ declsOf fs ns ∧ d.name = n ∧ denoteType rx fs ns d = some c := by
@@ -177,7 +177,7 @@ theorem type?_iff {rx E fs api} (hE : EnvOK E fs) (h : denote rx fs = some api) 
       rw [hden] at hden'
       rw [hden']
 
-theorem alias?_iff {rx E fs api} (hE : EnvOK E fs) (h : denote rx fs = some api) (ns n : String) (t : Ty) :
+theorem alias?_iff {rx E fs api} (hE : EnvOK E fs) (h : denoteCore rx fs = some api) (ns n : String) (t : Ty) :
     api.alias? (ns, n) = some t ↔ ∃ r, Decl.alias n r ∈ declsOf fs ns ∧ denoteRef rx fs ns r = some t := by
   have fwd : ∀ t, api.alias? (ns, n) = some t → ∃ r, Decl.alias n r ∈ declsOf fs ns ∧ denoteRef rx fs ns r = some t := by
     intro t hc
@@ -221,13 +221,13 @@ theorem option_ext {α} {x y : Option α} (h : ∀ a, x = some a ↔ y = some a)
     | some b => exact ((h b).mpr rfl)
   | some a => exact ((h a).mp rfl).symm
 
-theorem compile_order_independent {rx fs fs' api api'} (h : compile rx fs = .ok api) (h' : compile rx fs' = .ok api')
+theorem compile_order_independent {rx fs fs' api api'} (h : compileCore rx fs = .ok api) (h' : compileCore rx fs' = .ok api')
     (hs : SameDecls fs fs') (k : Key) : api.type? k = api'.type? k ∧ api.alias? k = api'.alias? k := by
   have hd := compile_denote h
   have hd' := compile_denote h'
-  have env : ∀ {fs api}, compile rx fs = .ok api → ∃ E, EnvOK E fs := by
+  have env : ∀ {fs api}, compileCore rx fs = .ok api → ∃ E, EnvOK E fs := by
     intro fs api h
-    unfold compile at h
+    unfold compileCore at h
     split at h
     · cases h
     · rename_i E hb; exact ⟨E, buildEnv_ok hb⟩
